@@ -163,27 +163,30 @@ fn _parse_with_lexer_ctx(lexer: &mut Lexer, r: &impl Resolve, ctx: Option<&Conte
         // First backup position
         let pos_bk = lexer.get_pos();
 
-        let second_lexeme = t!(lexer.next());
-        if second_lexeme.is_integer() {
-            let third_lexeme = t!(lexer.next());
-            if third_lexeme.equals(b"R") {
+        // Look ahead for `gen R`. Running out of input while looking ahead just means that this is not a reference:
+        // the integer may well be the last token (e.g. the last member of an object stream).
+        let generation = match lexer.next() {
+            Ok(second_lexeme) if second_lexeme.is_integer() => match lexer.next() {
+                Ok(third_lexeme) if third_lexeme.equals(b"R") => Some(second_lexeme),
+                _ => None,
+            },
+            _ => None,
+        };
+        match generation {
+            Some(second_lexeme) => {
                 // It is indeed a reference to an indirect object
                 check(flags, ParseFlags::REF)?;
                 Primitive::Reference (PlainRef {
                     id: t!(first_lexeme.to::<ObjNr>()),
                     gen: t!(second_lexeme.to::<GenNr>()),
                 })
-            } else {
+            }
+            None => {
                 check(flags, ParseFlags::INTEGER)?;
-                // We are probably in an array of numbers - it's not a reference anyway
+                // It is but a number (we may be in an array of numbers)
                 lexer.set_pos(pos_bk); // (roll back the lexer first)
                 Primitive::Integer(t!(first_lexeme.to::<i32>()))
             }
-        } else {
-            check(flags, ParseFlags::INTEGER)?;
-            // It is but a number
-            lexer.set_pos(pos_bk); // (roll back the lexer first)
-            Primitive::Integer(t!(first_lexeme.to::<i32>()))
         }
     } else if let Some(s) = first_lexeme.real_number() {
         check(flags, ParseFlags::NUMBER)?;
